@@ -617,6 +617,18 @@ def dispatcher_texts():
     return out
 
 
+def raw_in_table_texts():
+    """elements whose in-body handling ends by switching the tokenizer (raw text / RCDATA / plaintext / script) or by an
+    encoding indicator, placed where the table modes foster-parent them, followed by table structure"""
+    inner = ["<textarea>t</textarea>", "<title>t</title>", "<xmp>t</xmp>", "<iframe>t</iframe>", "<noembed>t</noembed>",
+             "<noframes>t</noframes>", "<style>t</style>", "<script>t</script>", "<meta charset=utf-8>",
+             "<meta http-equiv=content-type content='text/html;charset=x'>", "<noscript>t</noscript>", "<plaintext>"]
+    pre = ["<table>", "<table><tbody>", "<table><tr>", "<table><thead>", "<table><caption>c</caption>", "<table><colgroup>",
+           "<table><tr><td></td>", "<b><table>", "<table><tbody><tr>"]
+    post = ["<tr><td>x", "<caption>y", "<!--c-->", "<tbody><tr><td>z", "<col>", "w", " ", "</table>v", "<td>u", "<input type=hidden>"]
+    return [a + i + b for a in pre for i in inner for b in post]
+
+
 RELATION_TEXTS = [
     "<!DOCTYPE foo><p>a<table><tr><td>b</table>", "<!DOCTYPE html PUBLIC \"-//W3C//DTD XHTML 1.0 Transitional//EN\" \"x\"><p>a",
     "<!DOCTYPE html PUBLIC \"-//W3C//DTD HTML 4.01 Transitional//EN\"><p><table>", "<!DOCTYPE html><p><table>", "<p><table>x",
@@ -668,8 +680,13 @@ def gen_cases(tier, rng):
     directed = pair + dtc + ftab + adop + noah + fost + (step if not quick else step[::7])
     for t, c in rendered_family(directed):
         texts.append((t, c))
-    for t in _c06_texts() + RELATION_TEXTS + dispatcher_texts():
+    rit = raw_in_table_texts()
+    for t in _c06_texts() + RELATION_TEXTS + dispatcher_texts() + (rit if not quick else rit[::2]):
         texts.append((t, None))
+    # fragment parsing of text-only contexts: their own end tag is ordinary text there
+    for cx in ("title", "textarea", "style", "xmp", "iframe", "noembed", "noframes", "script", "noscript", "plaintext"):
+        for t in ("a</%s><b>c" % cx, "</%s>" % cx, "x<!--</%s>-->y</%s >z" % (cx, cx), "<%s>q</%s>r" % (cx, cx)):
+            texts.append((t, (HTML, cx)))
     # every tag-set name below the standard pair-cover prefixes, as text (documents)
     for t, c in rendered_family(frag if not quick else frag[::3]):
         texts.append((t, c))
